@@ -101,7 +101,8 @@ def anc_axioms(h: H):
         FA([x, y, z], z3.Implies(z3.And(ANC(x, y), sup(h, y, z)), ANC(x, z)), [(ANC(x, y), h.cnt(h.f('super_assets', y), z))]),
         FA([x, y, z], z3.Implies(z3.And(sup(h, x, y), ANC(y, z)), ANC(x, z)), [(h.cnt(h.f('super_assets', x), y), ANC(y, z))]),
         # unfolding (valid for the least fixed point): an ancestor is the node itself or an ancestor of one of its parents
-        FA([x, z], z3.Implies(z3.And(ANC(x, z), x != z), z3.Exists([y], z3.And(sup(h, x, y), ANC(y, z)))), [ANC(x, z)]),
+        # (trigger: only for assets whose super_assets list is looked at — unfolding the Skolem parent again would be a matching loop)
+        FA([x, z], z3.Implies(z3.And(ANC(x, z), x != z), z3.Exists([y], z3.And(sup(h, x, y), ANC(y, z)))), [(ANC(x, z), h.f('super_assets', x))]),
     ]
 
 
